@@ -57,7 +57,13 @@ def grammar_cases(ctx):
                 items.append(("s", ["0" * r.choice([0, 0, 1]) + str(r.choice(CODES)) for _ in range(r.choice([0, 1, 1, 1, 2, 3]))]))
                 items.append(("t", "plain " * 30 if r.random() < 0.03 else r.choice(TEXTS)))
             cases.append(items)
-    ctx.exhaustive.append("long grammar strings with 17..1000 sequences")
+    # single sequences with many parameters (the grammar puts no bound on n in ESC[ p1;...;pn m)
+    for n in (15, 16, 17, 18, 40, 300):
+        for _ in range(3 if ctx.thorough else 2):
+            ps = ["0" * r.choice([0, 0, 1]) + str(r.choice(CODES)) for _ in range(n)]
+            cases.append([("t", "a"), ("s", ps), ("t", "b")])
+            cases.append([("s", [1, 31]), ("t", "x"), ("s", ps), ("t", "y\n"), ("s", []), ("t", "z")])
+    ctx.exhaustive.append("long grammar strings with 17..1000 sequences; sequences with 15..300 parameters")
     for _ in range(20000 if ctx.thorough else 3000):
         items = []
         for _ in range(r.randint(0, 6)):
